@@ -165,6 +165,29 @@ def h_penalty(env, name, n_orbs, utd, mapping=None, canary=False):
         PB.check_action(env, inp, q, ref, enc, fn, f"{mapping} image of the {name} penalty acts on |Enc f> as mu ({name} - t)^2")
 
 
+def h_penalty_small(env, name, n_orbs, utd, mu, t):
+    """AUXILIARY concrete shape (no solver role; the subject is an absolute numeric tolerance): SMALL weights (1e-7 .. 1e-4, e.g. for a
+    Hamiltonian rescaled to unit norm): penalty / mu acts on every determinant as (O - t)^2 (1e-9), i.e. no term of mu (O - t)^2 is
+    pruned after the multiplication by mu"""
+    from tangelo.toolboxes.ansatz_generator import penalty_terms as pt
+    from symx import shim
+    n = 2 * n_orbs
+    fnc = dict(N=pt.number_operator_penalty, Sz=pt.spin_operator_penalty, S2=pt.spin2_operator_penalty)[name]
+    with shim.concrete_mode():
+        pen = fnc(n_orbs, t, mu=mu, up_then_down=utd)
+        ref = penalty_reference(name, n_orbs, utd, 1.0, t)
+        worst, where = 0.0, None
+        for f in itertools.product((0, 1), repeat=n):
+            got = fock.apply_operator(dict(pen.terms), f)
+            want = fock.apply_operator(ref, f)
+            for g in set(got) | set(want):
+                d = abs(complex(got.get(g, 0)) / mu - complex(want.get(g, 0)))
+                if d > worst:
+                    worst, where = d, (f, g)
+    env.check_true(worst < 1e-9, f"{name} penalty with mu={mu:.2e} (n_orbs={n_orbs}, utd={utd}): penalty / mu == ({name} - {t})^2 on every determinant (1e-9)",
+                   detail=f"max deviation {worst} at {where}")
+
+
 def h_combined(env, n_orbs, utd, canary=False):
     from tangelo.toolboxes.ansatz_generator.penalty_terms import combined_penalty
     n = 2 * n_orbs
@@ -370,6 +393,11 @@ def shapes(tier, seed):
             out.append(Shape(f"penalty/{name}/o2/{mapping}", h_penalty, dict(name=name, n_orbs=2, utd=False, mapping=mapping), modules=MODS))
     for utd in (False, True):
         out.append(Shape(f"penalty/combined/o2/utd{int(utd)}", h_combined, dict(n_orbs=2, utd=utd), modules=MODS))
+    for name_ in ("N", "Sz", "S2"):
+        for mu_ in (4e-6, 2.5e-7, 3e-5, 1e-4):
+            for utd_ in (False, True):
+                out.append(Shape(f"aux/penalty-small/{name_}/o2/utd{int(utd_)}/mu={mu_:.1e}", h_penalty_small,
+                                 dict(name=name_, n_orbs=2, utd=utd_, mu=mu_, t=0.75), modules=()))
     out.append(Shape("canary/penalty/N", h_penalty, dict(name="N", n_orbs=2, utd=False, canary=True), modules=MODS, canary=True))
     out.append(Shape("canary/penalty/combined", h_combined, dict(n_orbs=2, utd=True, canary=True), modules=MODS, canary=True))
     # (c)
